@@ -23,7 +23,7 @@
                 (put (world :cur) w opid)
                 (def r (try [:ok (thunk)] ([e] [:error (if (bytes? e) (string e) e)])))
                 (put world :progress (inc (world :progress)))
-                (array/push (world :done) [w opid r])
+                (array/push (world :done) [w opid r (verif/now)])
                 (put (world :cur) w nil)
                 (put (world :state) w :idle))
               # resumed by something that is not the director: a spurious wakeup
